@@ -212,12 +212,50 @@ def o_diversity(W, ci):
     return ent(W0), ent(W1)
 
 
+def repaired_gateway(bct):
+    """gateway_coef_sign with proposed_fixes/gateway_coef_sign.diff applied to its source text (None if it does not apply)"""
+    import inspect, os, sys
+    try:
+        src = inspect.getsource(bct.gateway_coef_sign)
+        root = os.path.dirname(os.path.dirname(os.path.abspath(__file__)))
+        diff = open(os.path.join(root, 'proposed_fixes', 'gateway_coef_sign.diff')).read().split('\n')
+        blocks, minus, plus = [], [], []
+        for ln in diff:
+            if ln.startswith('---') or ln.startswith('+++'):
+                continue
+            if ln.startswith('-'):
+                if plus:
+                    blocks.append((minus, plus)); minus, plus = [], []
+                minus.append(ln[1:])
+            elif ln.startswith('+'):
+                plus.append(ln[1:])
+            elif minus or plus:
+                blocks.append((minus, plus)); minus, plus = [], []
+        if minus or plus:
+            blocks.append((minus, plus))
+        if not blocks:
+            return None
+        for m, pl in blocks:
+            old, new = '\n'.join(m), '\n'.join(pl)
+            if not m or src.count(old) != 1:
+                return None
+            src = src.replace(old, new)
+        src = src[src.index('def gateway_coef_sign'):]
+        ns = dict(vars(sys.modules[bct.gateway_coef_sign.__module__]))
+        exec(compile(src, '<gateway_coef_sign repaired>', 'exec'), ns)
+        return ns['gateway_coef_sign']
+    except Exception:
+        return None
+
+
 # ---------------------------------------------------------------- the check
 def run(ctx):
     import bct
     r = ctx.nprng
     lines, pend = [], []
     slow = {}          # function -> number of timeouts; after 2 the function is not called any more (keeps the check fast)
+    gw_fixed = repaired_gateway(bct)
+    ctx.count('gateway_coef_sign_repaired:' + ('available' if gw_fixed is not None else 'patch-does-not-apply'))
 
     def model(line, kind, case, impl):
         lines.append(line); pend.append((kind, case, impl))
@@ -294,6 +332,8 @@ def run(ctx):
                         model('mod 1 %s %s %s' % (enc_mat(Wd, enc_q), enc_q(gamma), enc_list(labels)), 'q', case, out)
                     elif fname == 'modularity_und_sign':
                         model('mus %s %s %d' % (enc_mat(Ws, enc_q), enc_list(labels), ['sta', 'pos', 'smp', 'gja', 'neg'].index(qt)), 'q', case, out)
+                    elif fname == 'diversity_coef_sign':
+                        model('dcs %s %s' % (enc_mat(Ws, enc_q), enc_list(labels)), 'dcs', case, out)
                 else:
                     ctx.check(ref is None or close(out, ref), key0 + ':relabel',
                               'result changes under the injective relabelling %s: %s vs %s' % (nm, tolist(out), tolist(ref)), case)
@@ -304,23 +344,55 @@ def run(ctx):
                         model('mdz %s %s %d' % (enc_mat(Wd if flag else W, enc_q), enc_list(labels), flag), 'mdz', case, out)
                     elif fname == 'modularity_und' and nm in ('zero', 'mix'):
                         model('mod 0 %s %s %s' % (enc_mat(W, enc_q), enc_q(gamma), enc_list(labels)), 'q', case, out)
+                    elif fname == 'diversity_coef_sign' and nm in ('perm', 'neg', 'large'):
+                        model('dcs %s %s' % (enc_mat(Ws, enc_q), enc_list(labels)), 'dcs', case, out)
                     elif fname == 'modularity_und_sign' and nm in ('perm', 'gaps'):
                         model('mus %s %s %d' % (enc_mat(Ws, enc_q), enc_list(labels), ['sta', 'pos', 'smp', 'gja', 'neg'].index(qt)), 'q', case, out)
-        # gateway_coef_sign: known open finding (depends on label order / IndexError)
+        # gateway_coef_sign: known open finding (depends on label order / IndexError). The Coq model mirrors the code AS IT
+        # IS (None <-> IndexError), every variant goes through it; the repaired form (proposed_fixes) is modelled as well
+        # and compared with the source text patched in memory.
+        Wg = [row[:] for row in Ws]
+        if r.rand() < 0.3:
+            for d in range(n):
+                Wg[d][d] = VALS[int(r.randint(0, len(VALS)))] * int(r.choice([-1, 1]))      # the routine clears the diagonal
+        Ag = npm(Wg)
         for cm in ('degree',):
-            ref = None
+            ref = None; ref_r = None
             for nm, labels in variants:
                 c = np.array(labels, dtype=np.int64)
-                case = {'fn': 'gateway_coef_sign', 'W': sW(Ws), 'ci': [int(x) for x in labels], 'relabelling': nm, 'centrality': cm}
+                case = {'fn': 'gateway_coef_sign', 'W': sW(Wg), 'ci': [int(x) for x in labels], 'relabelling': nm, 'centrality': cm}
                 ctx.case(case, nontrivial=(K >= 2 and nm != 'base'))
+                ctx.count('gateway_coef_sign:%s' % nm)
+                A0 = Ag.copy()
                 try:
-                    out = call(bct.gateway_coef_sign, As.copy(), c, cm)
+                    with np.errstate(all='ignore'):
+                        out = call(bct.gateway_coef_sign, A0, c, cm)
+                except IndexError as e:
+                    out = None
+                    ctx.fail('gateway_coef_sign:relabel', 'raised %r' % (e,), case)
                 except Exception as e:
-                    ctx.fail('gateway_coef_sign:relabel', 'raised %r' % (e,), case); continue
+                    ctx.fail('gateway_coef_sign:raises', 'raised %r' % (e,), case); continue
+                ctx.check(np.array_equal(A0, Ag), 'gateway_coef_sign:pure', 'the matrix was modified in place', case)
+                model('gw %s %s' % (enc_mat(Wg, enc_q), enc_list(labels)), 'gw', case, None if out is None else [tolist(out[0]), tolist(out[1])])
                 if nm == 'base':
                     ref = out
-                elif ref is not None:
+                elif ref is not None and out is not None:
                     ctx.check(close(out, ref), 'gateway_coef_sign:relabel', 'result changes under the relabelling %s' % nm, case)
+                if gw_fixed is not None:
+                    case_r = dict(case, fn='gateway_coef_sign_repaired')
+                    try:
+                        with np.errstate(all='ignore'):
+                            out_r = call(gw_fixed, Ag.copy(), c, cm)
+                    except Exception as e:
+                        ctx.fail('gateway_coef_sign_repaired:raises', 'the repaired form raised %r' % (e,), case_r); continue
+                    if nm == 'base':
+                        ref_r = out_r
+                        model('gwr %s %s' % (enc_mat(Wg, enc_q), enc_list(labels)), 'pairvecq', case_r, [tolist(out_r[0]), tolist(out_r[1])])
+                    else:
+                        ctx.check(ref_r is None or close(out_r, ref_r), 'gateway_coef_sign_repaired:relabel',
+                                  'the repaired form changes under the relabelling %s' % nm, case_r)
+                        if nm in ('perm', 'mix'):
+                            model('gwr %s %s' % (enc_mat(Wg, enc_q), enc_list(labels)), 'pairvecq', case_r, [tolist(out_r[0]), tolist(out_r[1])])
         # relabel itself and ci2ls / ls2ci
         for nm, labels in variants:
             c = np.array(labels, dtype=np.int64)
@@ -385,6 +457,21 @@ def run(ctx):
         return D
 
     # ---- corpus
+    # witness of C14_gateway_coef_sign_refuted replayed on the implementation: one edge 0-1, blocks {0,1},{2}; the two
+    # numberings of the blocks exchange the coefficients of nodes 0 and 1
+    W3 = np.array([[0., 1., 0.], [1., 0., 0.], [0., 0., 0.]])
+    wcase = {'fn': 'gateway_coef_sign', 'W': W3.tolist(), 'ci': [1, 1, 2], 'ci2': [2, 2, 1], 'witness_of': 'C14_gateway_coef_sign_refuted'}
+    ctx.case(wcase, nontrivial=True)
+    try:
+        with np.errstate(all='ignore'):
+            g1 = bct.gateway_coef_sign(W3.copy(), np.array([1, 1, 2]))[0]
+            g2 = bct.gateway_coef_sign(W3.copy(), np.array([2, 2, 1]))[0]
+        if not close(g1, g2):
+            ctx.check(close(g1, [0.75, 0.4375, 0]) and close(g2, [0.4375, 0.75, 0]), 'gateway_coef_sign:witness',
+                      'the implementation differs on the two labellings but not with the values of the Coq witness: %s %s' % (tolist(g1), tolist(g2)), wcase)
+            ctx.fail('gateway_coef_sign:relabel', 'witness of C14_gateway_coef_sign_refuted reproduces: %s vs %s' % (tolist(g1), tolist(g2)), wcase)
+    except Exception as e:
+        ctx.fail('gateway_coef_sign:raises', 'raised %r on the witness' % (e,), wcase)
     pdist([1, 1, 1], [5, 5, 5], 'corpus')
     pdist([1, 2, 2, 3], [9, -4, -4, 0], 'corpus')
 
@@ -454,6 +541,28 @@ def run(ctx):
             if not close(mv, impl):
                 ctx.mismatch(fn, 'model and implementation differ', case, mv, impl)
         elif kind == 'pairvecq':
+            mv = [[float(dec_q(x)) for x in part] for part in m]
+            if not (close(mv[0], impl[0]) and close(mv[1], impl[1])):
+                ctx.mismatch(fn, 'model and implementation differ', case, mv, impl)
+        elif kind == 'dcs':
+            ok = True; mvs = []
+            for part, imp in zip(m, impl):
+                P = [[dec_q(x) for x in row] for row in part]
+                mcols = len(P[0]) if P else 0
+                if mcols <= 1:
+                    # a single module: log(m) = 0 in the denominator, the code returns nan (0/0)
+                    ok = ok and bool(np.all(np.isnan(np.asarray(imp, dtype=float)))) and all(x == 1 for row in P for x in row)
+                    mvs.append('nan'); continue
+                mv = [-sum(float(x) * math.log(float(x)) for x in row) / math.log(mcols) for row in P]
+                mvs.append(mv)
+                ok = ok and all(x > 0 for row in P for x in row) and close(mv, imp)
+            if not ok:
+                ctx.mismatch(fn, 'model pnm matrices do not reproduce the implementation', case, mvs, tolist(impl))
+        elif kind == 'gw':
+            if m is None or impl is None:
+                if not (m is None and impl is None):
+                    ctx.mismatch(fn, 'model and implementation disagree on IndexError', case, m, impl)
+                continue
             mv = [[float(dec_q(x)) for x in part] for part in m]
             if not (close(mv[0], impl[0]) and close(mv[1], impl[1])):
                 ctx.mismatch(fn, 'model and implementation differ', case, mv, impl)
